@@ -15,7 +15,8 @@ FREE_ALPHABET_Q = " _:" + LRM + "aAß1"
 FREE_ALPHABET_T = " _:\t" + LRM + RLM + "aAßéİ1"
 SEP_ALPHABET = " _" + LRM
 SEP_ALPHABET_Q = " " + LRM
-REST_ALPHABET = " _aAß1" + LRM
+TITLECASE = "\u01c5"  # a title-case letter (category Lt): neither lower nor upper, yet upper() changes it
+REST_ALPHABET = " _aAß1" + TITLECASE + LRM
 
 _handlers = {}
 
@@ -99,7 +100,7 @@ def ref_rest(rest):
 
 def has_letter(s):
     for ch in s:
-        if ch in "aAß1éİ":
+        if ch in "aAß1éİ" + TITLECASE:
             return True
     return False
 
@@ -142,7 +143,7 @@ def h_struct(idx: int, upper_first: bool, upper_all: bool, lead: str, colon: boo
         assume(not colon and len(lead) == 0 and len(sp1) == 0 and len(mid) == 0 and rest == "a")
     assume(len(lead) <= 1 and len(sp1) <= 1 and len(mid) <= 1 and len(rest) <= restlen)
     assume(in_alphabet(lead, sep) and in_alphabet(sp1, " _" if "_" in sep else " ") and in_alphabet(mid, sep))
-    assume(in_alphabet(rest, REST_ALPHABET if restlen > 1 else "aAß1"))
+    assume(in_alphabet(rest, REST_ALPHABET if restlen > 1 else "aAß1" + TITLECASE))
     lead, sp1, mid, rest = pinned(lead), pinned(sp1), pinned(mid), pinned(rest)
     assume(has_letter(rest))
     name, nsid = names[idx]
